@@ -52,8 +52,11 @@ class Precondition:
             ]
 
         else:
+            # an equality may only be used to rewrite the other conditions when all of them have to hold together.
             numeric_preconditions = self._simplify_numeric_preconditions(
-                numeric_expressions, decimal_digits
+                numeric_expressions,
+                decimal_digits,
+                eliminate_using_equalities=self.binary_operator == "and",
             )
 
         discrete_preconditions.sort()
@@ -216,11 +219,14 @@ class Precondition:
     def _simplify_numeric_preconditions(
         numeric_preconditions: List[NumericalExpressionTree],
         decimal_digits: int = DEFAULT_DECIMAL_DIGITS,
+        eliminate_using_equalities: bool = True,
     ) -> List[str]:
         """Simplify the numeric preconditions by eliminating redundant conditions as well as removing redundant preconditions.
 
         :param numeric_preconditions: the numeric preconditions to simplify.
         :param decimal_digits: the number of decimal digits to keep.
+        :param eliminate_using_equalities: whether the equalities may be substituted into the other conditions
+            (sound only for a conjunction).
         :return: the simplified numeric preconditions.
         """
         # start by searching for the equality conditions that can be used to eliminate some variables in the other conditions
@@ -232,7 +238,7 @@ class Precondition:
         ]
 
         assumptions = []
-        for equality_condition in equality_conditions:
+        for equality_condition in equality_conditions if eliminate_using_equalities else []:
             eliminated_expression = equality_condition.extract_eliminated_expressions()
             if eliminated_expression is None:
                 continue
